@@ -9,7 +9,9 @@ loop, lists passed by value to user functions, lists shared between setup() and 
 RUN-TIME scalars (`x.remove(c + 1)`, c read from a sensor in every pass), LISTS RETURNED BY FUNCTIONS THAT RETURN ONE OF THEIR LIST
 ARGUMENTS (`x = sel(y, z, c)`: a by-value struct, i.e. a shallow copy of a list chosen at run time, assigned to a declared list; also `x = ident(y)`,
 `x = y`, `x = y if c > t else z`), len() INSIDE FUNCTION BODIES whose parameter carries the name of a global list of another length
-(`def h(l0): return l0[len(l0) - 1]` called with l1; `for i in range(len(l0))` over the parameter; len() of a global inside a function)) are
+(`def h(l0): return l0[len(l0) - 1]` called with l1; `for i in range(len(l0))` over the parameter; len() of a global inside a function), ONE if / elif / else (or try / except) STATEMENT IN FRONT OF THE
+MAIN LOOP whose arms append / remove constants and read `x[len(y) - k]` (an earlier arm changes the length of a list whose len() a later arm
+folds; the later arm is the one taken at run time; coq/Device/DListArm.v: the parser's constant environment with object identity)) are
   * run as statements by the extracted Coq model (coq/Wire/C09W.v: parser's choice of emitted form, the list helper
     templates as heap transformers, setup() + N passes of loop(), and the CPython reference semantics),
   * executed under real CPython (harness/impl/c09_impl.py: printed values, live list data after every phase),
@@ -33,7 +35,7 @@ from harness import fw
 META = {
     "id": "C09",
     "technique": "Coq proof (heap model of the emitted list helper templates with value semantics; unique-ownership invariant by induction over statements, blocks and passes for every declared-before-use program; simulation of the CPython reference semantics) + extracted-model correspondence with the real transpiler's firmware compiled with clang++ ASan/UBSan and an interposed allocation counter + CPython reference run + property oracle on the sanitizer verdict and per-pass heap usage",
-    "level_text": "Theorems C09_* (coq/Props/C09.v). Since the repair of __redu_list (rule of five: deep-copying copy constructor / copy assignment, buffer-stealing move constructor / move assignment, destructor) the model (coq/Device/DList.v, DListProg.v) gives lists VALUE semantics: C09_value_semantics_safe - for EVERY list program whose names are declared before they are used (guard value_ok: aliases `b = a`, by-value parameters the callee mutates, lists returned by functions incl. `a = ident(a)`, lists first assigned in the main loop, re-assignment from literals / comprehensions, ANY tuple assignment, run as the block of simple statements the compiler makes of them: every temporary / parameter is a variable with a copy constructor and a destructor) and EVERY history of passes the firmware either runs safely, every list variable then owning a distinct live block of exactly its size with NOTHING else live (no leak), or stops at an out-of-bounds index; never a use after free, never a double free (induction over statements, blocks and passes). The eight refutations of the ownership findings became C09_*_repaired (inside value_ok, CPython and firmware run, heap usage after pass 4 = after pass 1). Helper level: every list helper is safe iff Python's index condition holds and frees exactly what it replaces, also when the `const T&` argument of append/remove refers into a list buffer - of the same list included (C09_argument_alias_safe); copy assignment fills the new buffer before it releases the old one. Python simulation (heap usage = CPython's live data, no leak when it is constant): C09_python_safe_partial / C09_no_leak_partial / C09_history_* under single_owner (WITHOUT tuple assignments since the repair: their copy-based semantics is covered by C09_value_semantics_safe and by the oracle, the simulation proof was not redone), C09_len_fold_* (parser's parse-time list copies, folded len(); guard len_ok, also without tuple assignments), C09_shared_result_* (read-only sharing, guard frozen_ok). Still refuted (copies where Python aliases): C09_clone_divergence_refuted, C09_clone_out_of_bounds_refuted, C09_shared_result_heap_varies_refuted.",
+    "level_text": "Theorems C09_* (coq/Props/C09.v). Since the repair of __redu_list (rule of five: deep-copying copy constructor / copy assignment, buffer-stealing move constructor / move assignment, destructor) the model (coq/Device/DList.v, DListProg.v) gives lists VALUE semantics: C09_value_semantics_safe - for EVERY list program whose names are declared before they are used (guard value_ok: aliases `b = a`, by-value parameters the callee mutates, lists returned by functions incl. `a = ident(a)`, lists first assigned in the main loop, re-assignment from literals / comprehensions, ANY tuple assignment, run as the block of simple statements the compiler makes of them: every temporary / parameter is a variable with a copy constructor and a destructor) and EVERY history of passes the firmware either runs safely, every list variable then owning a distinct live block of exactly its size with NOTHING else live (no leak), or stops at an out-of-bounds index; never a use after free, never a double free (induction over statements, blocks and passes). The eight refutations of the ownership findings became C09_*_repaired (inside value_ok, CPython and firmware run, heap usage after pass 4 = after pass 1). Helper level: every list helper is safe iff Python's index condition holds and frees exactly what it replaces, also when the `const T&` argument of append/remove refers into a list buffer - of the same list included (C09_argument_alias_safe); copy assignment fills the new buffer before it releases the old one. Python simulation (heap usage = CPython's live data, no leak when it is constant): C09_python_safe_partial / C09_no_leak_partial / C09_history_* under single_owner (WITHOUT tuple assignments since the repair: their copy-based semantics is covered by C09_value_semantics_safe and by the oracle, the simulation proof was not redone), C09_len_fold_* (parser's parse-time list copies, folded len(); guard len_ok, also without tuple assignments), C09_shared_result_* (read-only sharing, guard frozen_ok). Sibling arms (coq/Device/DListArm.v, object-level model of the parser's dict of Python list objects: in-place append/remove, _copy_const_env allocates): C09_arms_folded_independently - for every well-formed parser state and every list of arms, arm k of an if / elif / else (try / except) statement is folded exactly as the arm ALONE from the snapshot in front of the statement (C09_arm_depends_on_snapshot_and_itself, C09_arms_after_setup), hence with the lengths of the straight-line program `statements in front + arm k` (C09_taken_arm_folded_like_its_path) to which C09_len_fold_safe_partial applies (C09_taken_arm_safe_partial); after the statement exactly the names some arm writes are forgotten (C09_after_arms_*); C09_arms_shared_copy_differs: the parser with one copy per statement folds the else arm with the first arm's appends. Still refuted (copies where Python aliases): C09_clone_divergence_refuted, C09_clone_out_of_bounds_refuted, C09_shared_result_heap_varies_refuted.",
     "level_note": "Trusted: Coq kernel, extraction (ExtrOcamlBasic), OCaml driver, mock Arduino core (operator new[]/delete[] interposed: live-block/byte counter), clang++ 14 AddressSanitizer/UBSan as the memory checker, CPython 3.12 as the reference. The theorems are about the Gallina heap model; the correspondence bounds its distance from emitter.py's LIST_HELPER_SNIPPET and parser.py's assignment lowering. Element values are ints; String buffers, C int overflow of range(), control flow around list statements and the heap behaviour of the real AVR allocator are outside the model.",
     "design_ref": "DESIGN.md section 4 C09",
 }
@@ -183,7 +185,7 @@ def gated(prog) -> bool:
 
 def uses_c(prog) -> bool:
     """the script reads the run-time scalar c = p.read() at the top of every pass"""
-    return gated(prog) or any(s[0] in (12, 13, 16) for s in prog["body"])
+    return bool(prog.get("arm")) or gated(prog) or any(s[0] in (12, 13, 16) for s in prog["body"])
 
 
 def lines_of(prog):
@@ -1489,6 +1491,307 @@ def gen_exhaustive_parts(max_len, N):
 # running
 # --------------------------------------------------------------------------
 
+# --------------------------------------------------------------------------
+# sibling arms of ONE if / elif / else (try / except) statement in front of the main loop (coq/Device/DListArm.v, wire mode 3)
+# --------------------------------------------------------------------------
+
+ARM_FORMS = ["if-else", "if-elif-else", "if-elif-else", "if-elif", "try-except"]
+
+
+def arm_stmt_lines(s):
+    """an arm statement; the run-time scalar of setup code is c0 = p.read() (first reading, always 0)"""
+    return [re.sub(r"\bc\b", "c0", ln) for ln in stmt_lines(s)]
+
+
+def arm_lines(prog_arm):
+    """-> the source lines of the if / try statement"""
+    a = prog_arm
+    arms, k, form, sel = a["arms"], a["taken"], a["form"], a["sel"]
+    out = []
+    if form == "try-except":
+        heads = ["try:", "except Exception:"]
+    else:
+        heads = []
+        for j in range(len(arms)):
+            if form.endswith("else") and j == len(arms) - 1:
+                heads.append("else:")
+                continue
+            if sel == "mode":
+                cond = f"mode == {j}"
+            else:
+                cond = "c0 > 0" if j < k else ("c0 > -1" if j == k else "c0 > 5")
+            heads.append(("if " if j == 0 else "elif ") + cond + ":")
+    for h, arm in zip(heads, arms):
+        out.append(h)
+        body = [ln for s_ in arm for ln in arm_stmt_lines(s_)] or ["mon.write(0)"]
+        out += ["    " + ln for ln in body]
+    return out
+
+
+def arm_prog(a, N, pattern):
+    """a = {"pre", "arms", "taken", "form", "sel", "body"} -> program with literal lines (never batched: one sketch each)"""
+    head = ["from Reduino.Communication import SerialMonitor", "from Reduino.Sensors import Potentiometer",
+            "mon = SerialMonitor(9600)", 'p = Potentiometer("A0")']
+    setup = [ln for s_ in a["pre"] for ln in stmt_lines(s_)] + ["c0 = p.read()"]
+    if a["sel"] == "mode" and a["form"] != "try-except":
+        setup.append(f"mode = {a['taken']}")
+    setup += arm_lines(a)
+    setup += [ln for s_ in a.get("post", []) for ln in stmt_lines(s_)]
+    body = ['mon.write("-")', "c = p.read()"] + [ln for s_ in a["body"] for ln in stmt_lines(s_)]
+    return {"lines": {"head": head, "setup": setup, "body": body}, "setup": [], "body": [], "N": N, "gates": [],
+            "gvals": [0] + list(pattern), "arm": a, "kind": "arm-" + a["form"]}
+
+
+def arm_wire(prog):
+    a = prog["arm"]
+    return [3, a["pre"], a["arms"], a["taken"], a.get("post", []), a["body"], list(prog["gvals"][1:])]
+
+
+def gen_arm_part(rng, N, pattern, form=None, focus=True):
+    """literal-initialised lists, constant appends / removes at top level, then ONE if / elif / else (or try / except) statement
+    whose arms append / remove CONSTANTS (rarely a run-time scalar: the name loses its copy) and read `x[len(y) + k]` / `x[k - len(y)]`
+    (target index boundary-heavy: last, first, -1, -len - valid for the list AS THE ARM ITSELF leaves it, i.e. valid under CPython
+    when that arm is the one taken), then a balanced main loop.  focus: an EARLIER arm changes the length of a list whose len() a LATER
+    arm folds, and that later arm is the one taken at run time."""
+    form = form or rng.choice(ARM_FORMS)
+    cs = sorted(set(pattern))
+    for _ in range(60):
+        base = {0: cs + [rng.choice([11, 12, 13]) for _ in range(rng.choice([0, 1, 2]))],
+                1: [rng.choice([21, 22, 23, 24]) for _ in range(rng.choice([1, 2, 3]))]}
+        rng.shuffle(base[0])
+        pre = [[0, 0, list(base[0])], [0, 1, list(base[1])]]
+        names = [0, 1]
+        if rng.random() < 0.3:
+            pre.append([1, 2, [0, rng.choice([1, 2, 3]), 1, 1, 0]])      # a comprehension list: no parse-time copy
+            base[2] = list(range(pre[-1][2][1]))
+            names.append(2)
+        for _ in range(rng.choice([0, 0, 1, 2])):
+            x = rng.choice([0, 1])
+            if rng.random() < 0.7:
+                v = rng.choice([31, 32, 33])
+                pre.append([3, x, v])
+                base[x].append(v)
+            else:
+                cand = [v for v in base[x] if v not in cs]
+                if cand and len(base[x]) > 1:
+                    v = rng.choice(cand)
+                    pre.append([4, x, v])
+                    base[x].remove(v)
+        n_arms = {"if-else": 2, "if-elif-else": 3, "if-elif": rng.choice([2, 3]), "try-except": 2}[form]
+        arms, finals, writes, reads = [], [], [], []
+        for j in range(n_arms):
+            cur = {x: list(v) for x, v in base.items()}
+            arm, wr, rd, force = [], set(), set(), []
+            if form == "try-except" and j == 0 and rng.random() < 0.6:
+                # the try arm always runs: a constant remove there must be forgotten AFTER the statement
+                x = rng.choice([0, 1])
+                cand = [v for v in cur[x] if v not in cs]
+                if cand and len(cur[x]) >= 2:
+                    v = rng.choice(cand)
+                    arm.append([4, x, v])
+                    cur[x].remove(v)
+                    wr.add(x)
+            for _ in range(rng.choice([0, 1, 1, 2, 3])):
+                x = rng.choice([0, 1])
+                r = rng.random()
+                if r < 0.55:
+                    v = rng.choice([41, 42, 43, 44])
+                    arm.append([3, x, v])
+                    cur[x].append(v)
+                elif r < 0.8:
+                    cand = [v for v in cur[x] if v not in cs]
+                    if not cand or len(cur[x]) < 2:
+                        continue
+                    v = rng.choice(cand)
+                    arm.append([4, x, v])
+                    cur[x].remove(v)
+                elif r < 0.88:
+                    off = rng.choice([51, 52])
+                    arm.append([12, x, off])
+                    cur[x].append(off)               # c0 = 0
+                else:
+                    cand = [v for v in cur[x] if v not in cs and v != 0]
+                    if not cand or len(cur[x]) < 2:
+                        continue
+                    v = rng.choice(cand)
+                    arm.append([13, x, v])
+                    cur[x].remove(v)
+                    force.append(x)
+                wr.add(x)
+            for _ in range(rng.choice([1, 1, 2, 3])):
+                x = rng.choice(names)
+                y = x if rng.random() < 0.75 else rng.choice(names)
+                nx, ny = len(cur[x]), len(cur[y])
+                if nx == 0:
+                    continue
+                sg = rng.random() < 0.75
+                target = rng.choice([nx - 1, nx - 1, nx - 1, 0, -1, -nx, rng.randrange(-nx, nx)])
+                k = target - ny if sg else target + ny
+                if not sg and k < 0:
+                    continue
+                arm.insert(rng.randint(0, len(arm)) if rng.random() < 0.3 else len(arm), [14, x, y, 1 if sg else 0, k])
+                rd.add(y)
+            for x in force:
+                arm.append([14, x, x, 1, -1])       # the last element of a list a run-time remove has just shrunk
+            if rng.random() < 0.3:
+                x = rng.choice(names)
+                if cur[x]:
+                    arm.append([5, x, gen_index(rng, len(cur[x]))])
+            arms.append(arm)
+            writes.append(wr)
+            reads.append(rd)
+        # reads placed in front of a mutation were computed against the final lengths: re-validate every arm under CPython's order
+        def arm_ok(arm):
+            cur = {x: list(v) for x, v in base.items()}
+            for s_ in arm:
+                if s_[0] == 3:
+                    cur[s_[1]].append(s_[2])
+                elif s_[0] == 4:
+                    if s_[2] not in cur[s_[1]]:
+                        return None
+                    cur[s_[1]].remove(s_[2])
+                elif s_[0] == 12:
+                    cur[s_[1]].append(s_[2])
+                elif s_[0] == 13:
+                    if s_[2] not in cur[s_[1]]:
+                        return None
+                    cur[s_[1]].remove(s_[2])
+                elif s_[0] == 14:
+                    i = len(cur[s_[2]]) + s_[4] if s_[3] else s_[4] - len(cur[s_[2]])
+                    if not -len(cur[s_[1]]) <= i < len(cur[s_[1]]):
+                        return None
+                elif s_[0] == 5:
+                    if not -len(cur[s_[1]]) <= s_[2] < len(cur[s_[1]]):
+                        return None
+            return cur
+        finals = [arm_ok(a_) for a_ in arms]
+        if any(f is None for f in finals):
+            continue
+        # the pairs (earlier arm writes x, later arm folds len(x))
+        pairs = [(i, j) for j in range(n_arms) for i in range(j) if writes[i] & reads[j]]
+        if form == "try-except":
+            taken = 0
+        elif focus:
+            rt_arms = [j for j, a_ in enumerate(arms) if any(s_[0] == 13 for s_ in a_)]
+            if rt_arms and rng.random() < 0.5:
+                taken = rng.choice(rt_arms)
+            elif not pairs:
+                continue
+            else:
+                taken = rng.choice(pairs)[1]
+        else:
+            taken = rng.randrange(n_arms)
+        if form == "if-elif" and rng.random() < 0.15 and not focus:
+            taken = n_arms           # no arm taken
+        cur = finals[taken] if taken < n_arms else {x: list(v) for x, v in base.items()}
+        # top-level reads AFTER the statement (the names some arm writes are forgotten there: run-time len)
+        post = []
+        wr_taken = sorted(writes[taken]) if taken < n_arms else []
+        if rng.random() < 0.7:
+            for _ in range(rng.choice([1, 1, 2])):
+                x = rng.choice(wr_taken) if wr_taken and rng.random() < 0.7 else rng.choice(names)
+                y = x if rng.random() < 0.75 else rng.choice(names)
+                nx, ny = len(cur[x]), len(cur[y])
+                if nx == 0:
+                    continue
+                sg = rng.random() < 0.75
+                target = rng.choice([nx - 1, nx - 1, 0, -1, -nx])
+                k = target - ny if sg else target + ny
+                if not sg and k < 0:
+                    continue
+                post.append([14, x, y, 1 if sg else 0, k])
+        if taken < n_arms:
+            # a list the taken arm SHRANK: its last element is read after the statement (a length kept from before would be too long)
+            for x in sorted({s_[1] for s_ in arms[taken] if s_[0] in (4, 13)}):
+                if cur[x] and (form == "try-except" or rng.random() < 0.6):
+                    post.append([14, x, x, 1, -1])
+        # a balanced main loop over the lists as the taken arm left them
+        body = []
+        r = rng.random()
+        if r < 0.5:
+            body = [[13, 0, 0], [12, 0, 0]]
+            if rng.random() < 0.3:
+                body.reverse()
+        elif r < 0.8:
+            x = rng.choice([0, 1])
+            body = [[3, x, 61], [4, x, 61]]
+        x = rng.choice([0, 1])
+        y = x if rng.random() < 0.7 else rng.choice([0, 1])
+        if wr_taken and rng.random() < 0.5:
+            x = y = rng.choice(wr_taken)
+        # lengths at the read position: the body is balanced, a read between the two halves sees one element more / less
+        pos = rng.randint(0, len(body))
+        env = {z: list(v) for z, v in cur.items()}
+        for s_ in body[:pos]:
+            if s_[0] in (3, 12):
+                env[s_[1]].append(0)
+            else:
+                env[s_[1]].pop()
+        nx, ny = len(env[x]), len(env[y])
+        if nx == 0:
+            continue
+        target = rng.choice([nx - 1, 0, -1, -nx])
+        body.insert(pos, [14, x, y, 1, target - ny])
+        a = {"pre": pre, "arms": arms, "taken": taken, "form": form, "sel": rng.choice(["mode", "mode", "c0"]), "body": body, "post": post,
+             "focus": bool(pairs) and taken < n_arms and any(j == taken for _, j in pairs)}
+        if form == "if-elif" and taken >= n_arms:
+            a["sel"] = "mode"
+        return arm_prog(a, N, pattern)
+    return None
+
+
+def emitted_arm_lens(cpp, prog):
+    """the lengths the real parser folded in the arms, read off the emitted setup(): one entry per [14] statement of every arm in
+    source order (-1: emitted as the run-time __redu_len) -> list per arm, then one list for the statements after the if / try statement
+    | None when the text has another shape"""
+    try:
+        body = cpp[cpp.index("void setup()"):cpp.index("void loop()")]
+    except ValueError:
+        return None
+    gets = []
+    for ln in body.splitlines():
+        i = ln.find("__redu_list_get(")
+        if i >= 0:
+            inner = ln[i + len("__redu_list_get("):]
+            inner = inner[inner.index(",") + 1:]
+            gets.append(inner)
+    out, it = [], iter(gets)
+    for arm in list(prog["arm"]["arms"]) + [prog["arm"].get("post", [])]:
+        row = []
+        for s_ in arm:
+            if s_[0] not in (14, 5):
+                continue
+            idx = next(it, None)
+            if idx is None:
+                return None
+            if s_[0] == 5:
+                continue
+            if "__redu_len" in idx:
+                row.append(-1)
+                continue
+            ints = [int(v) for v in re.findall(r"(?<![\w.])-?\d+", idx)]
+            if not ints:
+                return None
+            if s_[3]:
+                row.append(ints[0])
+            else:
+                row.append(abs(ints[0]) if s_[4] == 0 else abs(ints[-1]))
+        out.append(row)
+    if next(it, None) is not None:
+        return None
+    return out
+
+
+def model_arm_lens(m, prog, which=4):
+    """the model's folded lengths restricted to the [14] statements (wire: one entry per statement)"""
+    out = []
+    for arm, row in zip(prog["arm"]["arms"], m[which]):
+        out.append([v for s_, v in zip(arm, row) if s_[0] == 14])
+    if len(m) > 6:
+        out.append([v for s_, v in zip(prog["arm"].get("post", []), m[6][0]) if s_[0] == 14])
+    return out
+
+
 def classify_stderr(r) -> int | None | str:
     """class of the sanitizer report: 0 out-of-bounds (incl. null), 1 use-after-free, 2 double free; None = clean"""
     heaperr = any(e.startswith("HEAPERR") for e in r["events"])
@@ -1903,6 +2206,98 @@ def run(ctx: C.Ctx):
             if not any(s["family"] == case["family"] for s in samples):
                 samples.append({"family": case["family"], "script": res["script"][:1800]})
 
+    # ---- sibling arms of one if / elif / else (try / except) statement (wire mode 3; one sketch per program)
+    arm_st = {"programs": 0, "forms": {}, "taken_arm": {}, "focus_programs": 0, "arms_compared": 0, "folded_reads": 0, "runtime_reads": 0,
+              "in_guard_py_ok": 0, "outside_guard": 0, "selector": {}, "earlier_arm_stmt_kinds": {}}
+    arm_progs = []
+    n_arm = 160 if thorough else 26
+    for i in range(n_arm):
+        form = ARM_FORMS[i % len(ARM_FORMS)]
+        ap = gen_arm_part(rng, N, GPATTERNS[i % len(GPATTERNS)], form=form, focus=(i % 4 != 3))
+        if ap:
+            arm_progs.append(ap)
+    arm_res = run_all(arm_progs) if arm_progs else []
+    arm_models = ctx.model([arm_wire(p_) for p_ in arm_progs]) if (have_model and arm_progs) else [None] * len(arm_progs)
+    for prog, res, m in zip(arm_progs, arm_res, arm_models):
+        a = prog["arm"]
+        arm_st["programs"] += 1
+        arm_st["forms"][a["form"]] = arm_st["forms"].get(a["form"], 0) + 1
+        arm_st["taken_arm"][str(a["taken"])] = arm_st["taken_arm"].get(str(a["taken"]), 0) + 1
+        arm_st["selector"][a["sel"]] = arm_st["selector"].get(a["sel"], 0) + 1
+        arm_st["focus_programs"] += bool(a.get("focus"))
+        for arm in a["arms"][:-1]:
+            for s_ in arm:
+                arm_st["earlier_arm_stmt_kinds"][str(s_[0])] = arm_st["earlier_arm_stmt_kinds"].get(str(s_[0]), 0) + 1
+        info = {"script": res["script"], "program": {k_: v_ for k_, v_ in prog.items() if k_ != "kind"}, "loops": prog["N"]}
+        py = res["py"]
+        mv = model_verdict(m) if m is not None else None
+        if m is not None and mv is None:
+            ctx.disagree("wire: the model could not decode an arm program", info, "decoded", m)
+        in_guard = mv[0] if mv is not None else True       # by construction when the model is not available
+        if not res["tr"].get("ok"):
+            if in_guard:
+                ctx.disagree("a list script with an if / try statement in front of the main loop was rejected by the transpiler: "
+                             + str(res["tr"].get("exc")) + ": " + str(res["tr"].get("msg")), info, "accepted", res["tr"])
+            continue
+        r = res["fw"]
+        if not r["compiled"]:
+            ctx.disagree("emitted C++ of a generated list script does not compile", info, "compiles", r["compile_log"][-800:])
+            continue
+        cls = classify_stderr(r)
+        ph = fw_phases(r["events"]) if cls is None else []
+        # correspondence 1: what the real parser folded in EVERY arm (taken or not) vs the model's arms
+        em = emitted_arm_lens(res["tr"]["cpp"], prog)
+        if mv is not None:
+            ml = model_arm_lens(m, prog, 4)
+            arm_st["arms_compared"] += len(ml) - 1
+            arm_st["post_reads"] = arm_st.get("post_reads", 0) + len(ml[-1])
+            arm_st["folded_reads"] += sum(1 for row in ml for v in row if v >= 0)
+            arm_st["runtime_reads"] += sum(1 for row in ml for v in row if v < 0)
+            if em is None:
+                ctx.disagree("the emitted setup() of an arm program has another shape than one __redu_list_get per read", info, ml, None)
+            elif em != ml:
+                ctx.disagree("lengths folded in the arms of one if / try statement: model (every arm from the snapshot in front of the statement, "
+                             "independently) vs the emitted C++", info, ml, em)
+            # correspondence 2: CPython reference
+            mf, mferr, mp, mperr = mv[1], mv[2], mv[3], mv[4]
+            pyp = py.get("phases", [])
+            real_exc = next((q["exc"] for q in pyp if "exc" in q), None)
+            if (mperr is None) != (real_exc is None) or (mperr is not None and EXC_CODE.get(real_exc) != mperr):
+                ctx.disagree("CPython reference of an arm program: exception differs (model vs real CPython)", info, mperr, real_exc)
+            elif mperr is None:
+                for k, (a_, b_) in enumerate(zip(mp, pyp)):
+                    ints = [x for x in b_["out"] if isinstance(x, int)]
+                    if a_[0] != ints or a_[1] != b_["live"]:
+                        ctx.disagree(f"CPython reference of an arm program, phase {k}: printed values / live data differ (model of the taken path vs real CPython)",
+                                     info, [a_[0], a_[1]], [ints, b_["live"]])
+                        break
+            # correspondence 3: firmware run of the taken path
+            if mferr is None and cls is None and len(ph) == len(mf):
+                for k, (a_, b_) in enumerate(zip(mf, ph)):
+                    st["phases_compared"] += 1
+                    if a_[0] != b_[0] or a_[1] != b_[1] or a_[2] * ELEM != b_[2]:
+                        ctx.disagree(f"arm program, phase {k}: printed values / live heap differ (model of the taken path vs firmware)", info,
+                                     [a_[0], a_[1], a_[2]], [b_[0], b_[1], b_[2]])
+                        break
+            elif mferr is None and cls is not None:
+                ctx.disagree(f"model: the firmware run of the taken path is memory-safe; real firmware: sanitizer report ({KIND_NAMES.get(cls, cls)})",
+                             info, "safe", {"class": cls, "stderr": r["stderr"][-600:]})
+        # property oracle: inside len_ok of the taken path, CPython exception-free => clean under ASan/UBSan, constant heap
+        if in_guard and py_ok(py, prog["N"]):
+            arm_st["in_guard_py_ok"] += 1
+            st["in_guard_py_ok"] += 1
+            evaluations += prog["N"] + 1
+            for key, what, exp, obs in oracle(prog, res, leak=True):
+                taken_txt = f"arm {a['taken']} of the {a['form']} statement is the one taken"
+                ctx.fail(what + " [" + taken_txt + "; folded in the arms: " + json.dumps(em) + "]", info, exp, obs, key="arm-" + key)
+        else:
+            arm_st["outside_guard"] += 1
+            evaluations += 1
+        distinct.add(json.dumps([a["pre"], a["arms"], a["taken"], a["body"]]))
+        if len(samples) < 4 and a.get("focus") and not any(s_.get("family") == "arm" for s_ in samples):
+            samples.append({"family": "arm", "script": res["script"][:1800]})
+    st["arms"] = arm_st
+
     # ---- known findings: replay every listed witness on the real transpiler + firmware
     for f in load_findings(ctx):
         try:
@@ -1950,7 +2345,12 @@ def run(ctx: C.Ctx):
                 "2-3 lists of pairwise DIFFERENT lengths (+ a list rotated by the run-time value), 2-4 calls r = h(x) of `def h(l_p): return l_p[len(l_y) + k]` / `l_p[k - len(l_y)]` whose parameter l_p is, two times out of "
                 "three, the NAME OF ANOTHER GLOBAL LIST (shadowing; else the argument's own name or a fresh name), y = the parameter (70 %) or a global, target index boundary-heavy, gates -1 / 0 / 1; 60 % a call of "
                 "`def walk(l_p): for i in range(len(l_p)): mon.write(l_p[i])` with a shadowing parameter of a LONGER global; the defs stand after every list declaration, right in front of `while True:`; fn-out calls a function "
-                "that reads len() of a global once before and once after that global shrank. Every "
+                "that reads len() of a global once before and once after that global shrank; (h) kind arm-* (coq/Device/DListArm.v, wire mode 3, one sketch per program): two literal lists (l0 holds every run-time value of the input pattern) "
+                "and 30 % a comprehension list, 0-2 constant appends / removes at top level, c0 = p.read() (first reading, 0), then ONE statement of the form if-else / if-elif-else / if-elif (2-3 arms) / try-except whose arms hold 0-3 of "
+                "append(const) 55 % / remove(const of the list) 25 % / append(c0 + off) 8 % / remove(c0 + off) 12 % (run-time argument: the name loses its copy; a run-time remove is followed by a read of the list's last element and its arm is then often the taken one) and 1-3 reads x[len(y) + k] / x[k - len(y)] (y = x 75 %; target index last (3x), first, -1, -len, random; "
+                "valid for the lists as THAT arm leaves them; 30 % placed in front of the arm's mutations) plus 30 % a plain read; three programs out of four are FOCUSED: an earlier arm changes the length of a list whose len() a later arm folds and the later arm is the one taken "
+                "(selected by `mode = k` / `mode == j` conditions or by comparisons of the run-time c0; try-except: the try arm runs, the except arm is only compared statically); 70 % 1-2 len() reads AFTER the statement (names written in some arm are forgotten there; 70 % of them on a list the TAKEN arm wrote); "
+                "then a balanced main loop (rotation by the run-time value / append+remove of a fresh constant / nothing) with one len() read of a list the loop does not write. Every "
                 "part is classified by the model; parts it expects to run safely are batched 10 per sketch (disjoint names), the others "
                 "run one per sketch (quick tier: a seeded sample). evaluations = phases (setup + passes) of in-guard exception-free "
                 "sketches judged by the oracle + 1 per other sketch compared; distinct non-trivial = distinct parts with more than 2 statements.",
@@ -1961,7 +2361,8 @@ def run(ctx: C.Ctx):
         "exhaustive": False,
         "exhaustive_part": f"loop bodies of length <= {3 if thorough else 2} over the 16-statement alphabet (classified by the model; "
                       f"{'all' if thorough else 'a seeded sample of the unsafe ones'} run on the firmware)",
-        "guard": "FULL domain (memory-safety clause and leak clause): single_owner OR len_ok OR frozen_ok (harness guard_so / track_py / guard_fz, each cross-checked against the model's bit on every case) OR "
+        "guard": "Arm programs: len_ok of the TAKEN PATH (statements in front of the if / try statement + the statements of the arm taken at run time + the statements after it; the model's bit) AND CPython raises nothing: memory-safety and leak clause. "
+                 "FULL domain (memory-safety clause and leak clause): single_owner OR len_ok OR frozen_ok (harness guard_so / track_py / guard_fz, each cross-checked against the model's bit on every case) OR "
                  "[value_ok (harness guard_vs, cross-checked against the model's bit: every name is declared when a statement uses it) AND CPython's run equals, name by name after every statement, the run with VALUE "
                  "semantics (harness sim2: no alias is ever observable)]. SAFETY-ONLY domain (memory-safety clause): value_ok AND CPython raises nothing AND the value-semantics run indexes inside its lists - `b = a` then "
                  "mutation, by-value parameters the callee mutates, `x = ident(y)`, tuple assignments with repeated names; the leak clause is not judged there and an index that is valid in CPython only because of an alias is "
@@ -1979,7 +2380,9 @@ def run(ctx: C.Ctx):
                        "are exercised (family *-strings: rotations through own elements, elements of other lists, permutations, reads) and compared with the model on "
                        "printed values, live blocks and live bytes (32 bytes per String + 8 per block under the mock)",
                        "C int overflow in __redu_list_from_range's counting loop; element type conversions (static_cast<T>)",
-                       "control flow other than `if <run-time value> > <const>:` around single list statements of the main loop (for / while / nested if / else); declarations inside conditionals",
+                       "control flow other than `if <run-time value> > <const>:` around single list statements of the main loop and ONE if / elif / else or try / except statement with straight-line arms in front of the main loop: "
+                       "for / while in front of the main loop, statements nested inside arms, multi-arm statements inside the main loop or inside function bodies (there every list the block writes is already forgotten: run-time len), declarations inside conditionals; "
+                       "an except arm never runs on the device (`raise` is rejected, list helpers do not throw): its folded lengths are compared with the model statically (correspondence), no run can fail there",
                        "subscript stores `a[i] = v` (the transpiler drops the line: C07's domain; the model keeps list_set as a helper-level operation only)",
                        "allocator behaviour of the real AVR heap (fragmentation, new[] failure); out-of-bounds reads that ASan cannot see "
                        "(1-4 ints before the buffer fall into the mock counter's own header: counted in distribution.oob_not_detected_by_asan)",
